@@ -438,17 +438,19 @@ class StmtChecker(AstVisitor[BBStatement]):
                 for i in range(len(ctrl)):
                     ctrl[i], subst = self._check_expr(ctrl[i], qubit_ty())
                     assert len(subst) == 0
-                    # Control qubits are borrowed for the duration of the block and
-                    # given back afterwards, exactly like borrowed call arguments
-                    arg = ctrl[i]
-                    if isinstance(arg, PlaceNode):
-                        arg.place = check_place_assignable(
-                            arg.place,
-                            self.ctx,
-                            arg,
-                            "able to borrow subscripted elements",
-                        )
                 control.qubit_num = len(ctrl)
+
+            # Control qubits (or the array of control qubits) are borrowed for the
+            # duration of the block and given back afterwards, exactly like borrowed
+            # call arguments
+            for arg in ctrl:
+                if isinstance(arg, PlaceNode):
+                    arg.place = check_place_assignable(
+                        arg.place,
+                        self.ctx,
+                        arg,
+                        "able to borrow subscripted elements",
+                    )
 
         for power in node.power:
             power.iter, subst = self._check_expr(
